@@ -333,7 +333,7 @@ def run_property(prop, tier, obligations, meta, seed=0, only=None, jobs=None, ke
             info['parts'] = parts
             overlay_infos.append(info)
             clog = os.path.join(logdir, 'codegen_%d.log' % gi)
-            rc, to, dt = run_capped(['cargo', 'kani', '--target-dir', slot.kani_target, '--only-codegen'], ov, clog, 1800)
+            rc, to, dt = run_capped(['cargo', 'kani', '--target-dir', slot.kani_target, '-Z', 'stubbing', '--only-codegen'], ov, clog, 1800)
             if rc != 0:
                 txt = open(clog).read()
                 errs = re.findall(r'^error(?:\[E\d+\])?: .*$', txt, re.M)
@@ -346,12 +346,29 @@ def run_property(prop, tier, obligations, meta, seed=0, only=None, jobs=None, ke
         # longest first
         pending.sort(key=lambda t: -t[0].get('timeout', 600))
 
+        import threading
+        budget = {'free': float(os.environ.get('VERIF_MEM_GB', '44'))}
+        cv = threading.Condition()
+
         def work(item):
             ob, ov, caps, consts = item
+            # scheduling uses the expected footprint; the hard per-process cap (mem_gb) is enforced by RLIMIT_AS
+            need = min(ob.get('mem_expect_gb', min(ob.get('mem_gb', 10), 5)), float(os.environ.get('VERIF_MEM_GB', '44')))
+            with cv:
+                while budget['free'] < need:
+                    cv.wait()
+                budget['free'] -= need
+            try:
+                return work1(item)
+            finally:
+                with cv:
+                    budget['free'] += need
+                    cv.notify_all()
+
+        def work1(item):
+            ob, ov, caps, consts = item
             lf = os.path.join(logdir, ob['id'].replace('/', '_') + '.log')
-            cmd = ['cargo', 'kani', '--target-dir', slot.kani_target, '--harness', ob['harness'], '--exact']
-            if ob.get('kani_stubs'):
-                cmd += ['-Z', 'stubbing']
+            cmd = ['cargo', 'kani', '--target-dir', slot.kani_target, '-Z', 'stubbing', '--harness', ob['harness'], '--exact']
             cmd += ob.get('kani_args', [])
             mem = ob.get('mem_gb', 10 if tier == 'quick' else 28)
             tmo = ob.get('timeout', 900) * float(os.environ.get('VERIF_TIMEOUT_SCALE', '1'))
@@ -457,9 +474,7 @@ def replay_failure(slot, prop, ob, ov, caps, consts, logdir, unknown=None):
     shutil.rmtree(outdir, ignore_errors=True)
     os.makedirs(outdir)
     lf = os.path.join(logdir, ob['id'].replace('/', '_') + '.playback.log')
-    cmd = ['cargo', 'kani', '--target-dir', slot.kani_target, '--harness', ob['harness'], '--exact', '-Z', 'concrete-playback', '--concrete-playback=print']
-    if ob.get('kani_stubs'):
-        cmd += ['-Z', 'stubbing']
+    cmd = ['cargo', 'kani', '--target-dir', slot.kani_target, '-Z', 'stubbing', '--harness', ob['harness'], '--exact', '-Z', 'concrete-playback', '--concrete-playback=print']
     cmd += ob.get('kani_args', [])
     rc, to, dt = run_capped(cmd, ov, lf, ob.get('timeout', 900) * 2, ob.get('mem_gb', 28))
     text = open(lf, errors='replace').read()
